@@ -28,7 +28,9 @@ PROPERTY = 'C14'
 LEVEL = 'fault_enumeration'
 BUDGET_S = {'quick': 180, 'thorough': 2700}
 EXHAUSTIVE = {'quick': False, 'thorough': False}
-RULE = ("translate: seeded region sets x boundary-biased addresses x priv x direction vs the MPU model; deny_at_k: seeded load/store encodings x main mode x "
+RULE = ("deny-sweep: the systematic sweeps of the 32-bit Thumb / ARM encoding spaces with every register pointing at the edge of a no-access block: no byte of it "
+        "changes, an abort's DFAR is a denied address, the base register (Rn field) of an aborted instruction is unchanged.  "
+        "translate: seeded region sets x boundary-biased addresses x priv x direction vs the MPU model; deny_at_k: seeded load/store encodings x main mode x "
         "denial kind (no-access / privileged-only / read-only / background) with the first denied access enumerated over every position k of the learned "
         "access list; align: vocabulary accesses with misaligned addresses; revoke: seeded revoke schedules over generated programs. distinct_nontrivial = "
         "distinct (instruction class, n accesses, k, read/write, privilege, fault type) tuples in which an abort was actually taken, plus distinct (region "
@@ -45,9 +47,12 @@ DREG = 10                          # the deny region (highest priority used)
 
 
 def plan(tier, seed):
+    # deny-sweep: the systematic sweeps of the 32-bit Thumb and ARM encoding spaces with EVERY register pointing at the edge of a no-access region
+    sw = lambda rt, ra: ([{'k': 'deny-sweep', 'sub': 'sweepT32', 'slice': i, 'rep': rt} for i in range(0, 384, 8)] +
+                         [{'k': 'deny-sweep', 'sub': 'sweepA32', 'slice': i, 'rep': ra} for i in range(0, 8192, 64)])
     if tier == 'quick':
-        return [{'k': 'witness-pushw'}] + [{'k': 'translate'}] * 8000 + [{'k': 'deny'}] * 12000 + [{'k': 'align'}] * 4000 + [{'k': 'revoke'}] * 4000
-    return [{'k': 'witness-pushw'}] + [{'k': 'translate'}] * 200000 + [{'k': 'deny'}] * 300000 + [{'k': 'align'}] * 80000 + [{'k': 'revoke'}] * 100000
+        return [{'k': 'witness-pushw'}] + [{'k': 'translate'}] * 8000 + [{'k': 'deny'}] * 12000 + [{'k': 'align'}] * 4000 + [{'k': 'revoke'}] * 4000 + sw(48, 6)
+    return [{'k': 'witness-pushw'}] + [{'k': 'translate'}] * 200000 + [{'k': 'deny'}] * 300000 + [{'k': 'align'}] * 80000 + [{'k': 'revoke'}] * 100000 + sw(512, 64) * 3
 
 
 # =================================================================== translate
@@ -743,7 +748,98 @@ def witness_pushw_case():
             'events': [], 'max_ticks': 200}
 
 
+# =================================================================== deny-sweep
+
+SW_DENY = G.DATA + 0x800          # [DATA+0x800, DATA+0x1000): no access for anybody
+
+
+def gen_deny_sweep(item, rng, tier):
+    from scenarios import c18
+    src = c18.gen_case({k: v for k, v in dict(item, k=item['sub']).items() if k != 'sub'}, rng, tier)['cores'][0]
+    thumb = src['force']['thumb']
+    cfg = {'arch_version': rng.choice([6, 7, 7]), 'have_security_ext': False, 'have_virt_ext': False, 'have_lpae': False, 'memory_system_architecture': 'PMSA',
+           'number_of_mpu_regions': 12}
+    cfg.update(G.impdef_switches(rng))
+    mpu = [(0, 0, 0)] * 12
+    mpu[0] = (1 | 31 << 1, 0, 3 << 8)
+    mpu[DREG] = (1 | 10 << 1, SW_DENY, rng.getrandbits(6) | rng.getrandbits(1) << 12)          # AP = 0
+    devices = G.std_devices(high=False)
+    G.set_data(devices[2], 0x700, bytes(rng.getrandbits(8) for _ in range(0x200)))
+    mode = rng.choice(['usr', 'svc', 'svc', 'sys', 'irq'])
+    sys = dict(G.mpu_sys(mpu))
+    sys['sctlr'] = G.sctlr_value(m=1, a=0, u=1, te=thumb, v=0, br=1, ee=0)
+    regs = {'cpsr': G.random_cpsr(rng, cfg, mode=mode, thumb=thumb, e=0) | 0xC0, 'pc': G.CODE, 'sys': sys, 'R': G.random_regfile(rng, cfg), 'spsr': G.random_spsrs(rng, cfg, valid=True)}
+    # pointers around the lower edge of the denied block: word-aligned, so that multi-word transfers start allowed and run into it, or start inside it
+    ptrs = [SW_DENY + 4 * d for d in (-8, -4, -3, -2, -1, 0, 0, 1, 2, 4)] + [SW_DENY + 0x7F8, SW_DENY + 0x7FC, 4, 8, 0x10]
+    force = {'it': 0, 'ctx': 9, 'thumb': thumb, 'ptr_regs': ptrs}
+    core = {'config': cfg, 'devices': devices, 'regs': regs, 'words': src['words'], 'force': force, 'no_poke': []}
+    return {'scenario': 'deny_sweep', 'cores': [core], 'events': [], 'max_ticks': len(src['words']) + 2, 'stop_at_done': False, 'thumb': thumb}
+
+
+class DenySweepObserver:
+    def __init__(self, mon, regions):
+        self.mon, self.regions, self.mem = mon, regions, None
+
+    def on_tick(self, b, rec):
+        arm = b.cores[0].arm
+        mem = M.peek(arm, SW_DENY, 0x800)
+        self.mem = getattr(b, 'pre_mem', None)          # taken after the board placed this tick's instruction word (the PC may point into the block)
+        if self.mem is not None and mem != self.mem and not b.violations:
+            k = next(i for i in range(0x800) if mem[i] != self.mem[i])
+            b.violate('mpu.deny', type(arm.executed_opcode).__name__, 'denied_bytes_written', 'word %#x (pc %#x, cpsr %#x) changed byte +%#x of the no-access block' % (
+                arm.opcode, rec['pre_pc'], rec['pre'][1], k))
+        if rec['what'] != 'step' or rec['nie'] or rec['exc']:
+            return
+        kinds = [k for t, k in self.mon.taken if t == rec['tick']]
+        if kinds != ['dabt']:
+            return
+        r = arm.registers
+        name = type(arm.executed_opcode).__name__
+        site = name[:-2] if name[-2:] in ('A1', 'A2', 'T1', 'T2', 'T3', 'T4') else name
+        fs = MPU.dfsr_fs(r.dfsr.value)
+        if fs == MPU.FS_ALIGNMENT:
+            b.cover.add('~deny-sweep-align')
+            return
+        priv = (rec['pre'][1] & 0x1F) != 0x10
+        dec, _ = MPU.decide(self.regions, 1, 1, r.dfar, priv, bool((r.dfsr.value >> 11) & 1))
+        if dec == 'ok':
+            b.violate('mpu.deny', site, 'dfar_not_denied', '%s (word %#x) aborted with DFAR %#x (DFSR %#x), which the MPU model allows' % (name, arm.opcode, r.dfar, r.dfsr.value))
+            return
+        w = arm.opcode
+        if arm.opcode_len == 32:
+            rn = (w >> 16) & 0xF
+            thumb = b.case['thumb']
+            ldm_with_base = ((w >> 25) & 7 == 4 and (w >> 20) & 1 and (w >> rn) & 1) if not thumb else ((w >> 25) == 0x74 and (w >> 22) & 1 == 0 and (w >> 20) & 1 and (w >> rn) & 1)
+            if rn != 15 and not ldm_with_base:
+                from sim.models.banking import phys
+                nme = phys(rn, rec['pre'][1] & 0x1F)
+                i = M.RNAMES.index(nme)
+                if nme != 'LRabt' and rec['post'][0][i] != rec['pre'][0][i]:          # (LR_abt is written by the abort entry itself)
+                    b.violate('mpu.deny', site, 'base_register_written_back', '%s (word %#x): %s %#x -> %#x although the instruction aborted (DFAR %#x)' % (
+                        name, w, nme, rec['pre'][0][i], rec['post'][0][i], r.dfar))
+                    return
+        b.cover.add('deny-sweep|%s|%s' % (site, 'w' if (r.dfsr.value >> 11) & 1 else 'r'))
+
+
+def run_deny_sweep(case):
+    from sim.stream import StreamBoard
+
+    class DenyBoard(StreamBoard):
+        pre_mem = None
+
+        def after_poke(self, ci):
+            self.pre_mem = M.peek(self.cores[ci].arm, SW_DENY, 0x800)
+    b = DenyBoard(case, [])
+    mon = EntryMonitor(b, 0, report=False)
+    b.observers = [mon, DenySweepObserver(mon, MPU.regions_from_arm(b.cores[0].arm))]
+    b.run()
+    b.count('fault.mpu-deny-sweep', b.tick)
+    return {'violations': b.violations, 'cover': b.cover, 'stats': b.stats, 'ticks': b.tick, 'digest': b.digest()}
+
+
 def gen(item, rng, tier):
+    if item['k'] == 'deny-sweep':
+        return gen_deny_sweep(item, rng, tier)
     if item['k'] == 'witness-pushw':
         return witness_pushw_case()
     return {'translate': gen_translate, 'deny': gen_deny, 'align': gen_align, 'revoke': gen_revoke}[item['k']](rng)
@@ -751,7 +847,7 @@ def gen(item, rng, tier):
 
 def run(case):
     p0 = M.env.print_count[0]
-    res = {'translate': run_translate, 'deny_at_k': run_deny, 'align': run_align, 'revoke': run_revoke}[case['scenario']](case)
+    res = {'translate': run_translate, 'deny_at_k': run_deny, 'align': run_align, 'revoke': run_revoke, 'deny_sweep': run_deny_sweep}[case['scenario']](case)
     res['stats']['prints'] = M.env.print_count[0] - p0
     res['stats']['probe.scenario-' + case['scenario']] = 1
     res['interesting'] = bool(res['violations'])
